@@ -138,9 +138,9 @@ pub proof fn lemma_sub_wf(segs: Seq<Segment>, lo: int, hi: int)
     assert forall|i: int| 0 <= i < d.len() implies contig(seg_all(#[trigger] &d[i]), d[i].start_offset as int) by {
         assert(d[i] == segs[lo + i]);
     }
-    assert forall|i: int| 0 <= i < d.len() - 1 implies seg_all(&d[i]).len() > 0
-            && (#[trigger] d[i]).start_offset + seg_all(&d[i]).len() == d[i + 1].start_offset by {
-        assert(d[i] == segs[lo + i] && d[i + 1] == segs[lo + i + 1]);
+    assert forall|i: int, j: int| 0 <= i && j == i + 1 && j < d.len() implies seg_all(&d[i]).len() > 0
+            && (#[trigger] d[i]).start_offset + seg_all(&d[i]).len() == (#[trigger] d[j]).start_offset by {
+        assert(d[i] == segs[lo + i] && d[j] == segs[lo + j]);
     }
 }
 pub proof fn lemma_log_shape(segs: Seq<Segment>, n: int)
